@@ -33,10 +33,10 @@ def model_check(ctx, label, allow_zero=(), **kw):
     return r
 
 
-def generate(ctx, n, seed, **kw):
+def generate(ctx, n, seed, cfg="Gen_ParallelExec.cfg", **kw):
     """n random complete executions (TLC -simulate) of one block; returns input objects for the driver."""
     c = consts(maxops=80, **kw)
-    bs = ctx.behaviours("exec", "Gen_ParallelExec", "Gen_ParallelExec.cfg", constants=c,
+    bs = ctx.behaviours("exec", "Gen_ParallelExec", cfg, constants=c,
                         simulate="num=%d" % n, depth=81, seed=seed, timeout=1500)
     acc = sorted(kw.get("acc", ("x",)))
     res = []
